@@ -147,6 +147,38 @@ func (e *editor) block(b *[]*model.Stmt) {
 			}
 			e.expr(&s.Cond)
 			e.block(&s.Body)
+		case model.KPory:
+			if e.hit() {
+				(*b)[i] = newCmd()
+				return
+			}
+			for j := range s.PCases {
+				if e.hit() {
+					splice(s.PCases[j].Body)
+					return
+				}
+			}
+			for j := range s.PCases {
+				if len(s.PCases) > 1 && e.hit() {
+					s.PCases = append(s.PCases[:j:j], s.PCases[j+1:]...)
+					return
+				}
+			}
+			for j := range s.PCases {
+				if s.PCases[j].Brace {
+					e.block(&s.PCases[j].Body)
+				} else if len(s.PCases[j].Body) == 1 {
+					// the ':' form holds exactly one statement: only edits that keep it so
+					one := []*model.Stmt{s.PCases[j].Body[0]}
+					e.block(&one)
+					if len(one) == 1 {
+						s.PCases[j].Body = one
+					} else if e.done {
+						s.PCases[j].Body = one
+						s.PCases[j].Brace = true
+					}
+				}
+			}
 		case model.KSwitch:
 			if e.hit() {
 				(*b)[i] = newCmd()
